@@ -751,3 +751,220 @@ func runChKeySplitAtFirst(c *Ctx) {
 	c.CheckAt("C24.R8", "(*centrifuge.mapHub).parseChKey: splits at the first separator", w.Pos(fn.Pos()), bad == "",
 		"a key that contains the separator byte no longer parses ("+bad+"): the sweep treats its tracking entry as malformed and drops it, the heap item is already popped, and the key stays in state for ever without a removal")
 }
+
+func init() {
+	r4doc("C26", "C26.R6", "pairing: the per-channel map flag lives exactly as long as the channel's subscriber entry")
+	round3Hooks["C26"] = append(round3Hooks["C26"], runMapFlagPairedWithSubs)
+	r4doc("C30", "C30.R7", "K2: only data messages are compressed (every writer API consults isData)")
+	round3Hooks["C30"] = append(round3Hooks["C30"], runCompressOnlyData)
+	r4doc("C29", "C29.R7", "K2: whether a message is inflated depends on its RSV1 bit, not on the length of its first fragment")
+	round3Hooks["C29"] = append(round3Hooks["C29"], runInflateIndependentOfLength)
+	r4doc("C32", "C32.R5", "single source: the protocol of a stream transport is the one its handler chose for the framing")
+	round3Hooks["C32"] = append(round3Hooks["C32"], runTransportProtocolFromHandler)
+	r4doc("C25", "C25.R8", "sibling agreement: both refresh cycles ask the backend for the full item when a key still needs a broadcast")
+	round3Hooks["C25"] = append(round3Hooks["C25"], runRefreshCyclesHonourNeedsBroadcast)
+}
+
+// runMapFlagPairedWithSubs (C26.R6): subShard.mapChannels[ch] records which broker serves the channel; the
+// delayed unsubscribe job uses the value removeSub hands back when the channel empties. The flag must be
+// dropped together with the channel's subscriber entry — a delete of mapChannels sits in the same block as
+// a delete of subs. Dropped on an earlier removal, the last subscriber's removal reports "not a map
+// channel" and the map broker is never unsubscribed.
+func runMapFlagPairedWithSubs(c *Ctx) {
+	w := c.W
+	n := 0
+	for _, f := range moduleFuncs(w) {
+		for _, d := range mapDeletesOf(f, false, "subShard", "mapChannels") {
+			n++
+			paired := false
+			for _, s := range mapDeletesOf(f, false, "subShard", "subs") {
+				if s.Block() == d.Block() {
+					paired = true
+				}
+			}
+			c.Check("C26.R6", d, "the map flag of a channel is deleted together with its subscriber entry", paired,
+				"the flag is cleared while subscribers remain: when the last one leaves the channel is reported as a stream channel, the stream broker is unsubscribed instead, and the node stays subscribed in the map broker with no local subscriber")
+		}
+	}
+	c.Anchor("C26.R6", "deletes of subShard.mapChannels", n >= 1)
+}
+
+// runCompressOnlyData (C30.R7): RFC 7692 forbids RSV1 on control frames and the reader never inflates
+// control payloads. Every place that decides to compress an outgoing message consults isData(messageType):
+// a store of true into messageWriter.compress is guarded by it, and the compress field of a prepareKey is
+// computed from it.
+func runCompressOnlyData(c *Ctx) {
+	w := c.W
+	isDataCall := func(call *ssa.Call) bool {
+		cal := call.Call.StaticCallee()
+		return cal != nil && cal.Name() == "isData"
+	}
+	n := 0
+	for _, f := range moduleFuncs(w) {
+		if f.Pkg == nil || !strings.HasSuffix(f.Pkg.Pkg.Path(), "internal/websocket") {
+			continue
+		}
+		for _, st := range storesToField(f, false, "messageWriter", "compress") {
+			if k, ok := boolConst(st.Val); !ok || !k {
+				continue
+			}
+			n++
+			okG := GuardedBy(st, func(g Guard) bool { return g.Pol && condFromCall(g.Cond, isDataCall, 0, map[ssa.Value]bool{}) })
+			c.Check("C30.R7", st, "a message writer compresses only when isData(messageType) holds", okG,
+				"a control message written through the writer API is deflated and sent with RSV1 set: the peer's handler receives bytes that differ from what was written")
+		}
+		for _, st := range storesToField(f, false, "prepareKey", "compress") {
+			if k, ok := boolConst(st.Val); ok && !k {
+				continue // "never compressed" needs no test
+			}
+			n++
+			c.Check("C30.R7", st, "a prepared message is compressed only when isData(messageType) holds", condFromCall(st.Val, isDataCall, 0, map[ssa.Value]bool{}),
+				"a prepared control message is deflated and sent with RSV1 set")
+		}
+	}
+	c.Anchor("C30.R7", "compression decisions of the writer APIs", n >= 2)
+}
+
+// runInflateIndependentOfLength (C29.R7): a compressed message may be fragmented anywhere (RFC 7692), also
+// with an empty first fragment. NextReader decides from the RSV1 state of the first frame alone: no guard of
+// the newDecompressionReader call reads the remaining/declared length of that frame.
+func runInflateIndependentOfLength(c *Ctx) {
+	w := c.W
+	fn := w.Func("internal/websocket", "(*Conn).NextReader")
+	if !c.Anchor("C29.R7", "(*Conn).NextReader", fn) {
+		return
+	}
+	n := 0
+	for _, ci := range CallsIn(fn, false, fieldFuncCall("Conn", "newDecompressionReader")) {
+		n++
+		bad := ""
+		for _, g := range Guards(ci) {
+			var loads []*ssa.UnOp
+			fieldLoadsIn(g.Cond, 0, map[ssa.Value]bool{}, &loads)
+			for _, ld := range loads {
+				if fa, ok := ld.X.(*ssa.FieldAddr); ok {
+					if _, f, ok := FieldOf(fa); ok && (f == "readRemaining" || f == "readLength") {
+						bad = "Conn." + f
+					}
+				}
+			}
+		}
+		c.Check("C29.R7", ci, "the decompression reader is installed whatever the length of the first fragment", bad == "",
+			"a compressed message whose first fragment is empty is handed to the application as raw deflate bytes, and the decompressed-size limit is not enforced for it (guard on "+bad+")")
+	}
+	c.Anchor("C29.R7", "newDecompressionReader call in NextReader", n >= 1)
+}
+
+// runTransportProtocolFromHandler (C32.R5): the HTTP-stream and SSE handlers pick the framing from the
+// request and hand the protocol to the transport in its config; encoding follows transport.Protocol().
+// Framing and encoding agree only if the transport keeps the protocol it was given: the constructors do not
+// store into the protocolType field of their config.
+func runTransportProtocolFromHandler(c *Ctx) {
+	w := c.W
+	n := 0
+	for _, name := range []string{"newHTTPStreamTransport", "newSSETransport"} {
+		fn := w.Func("centrifuge", name)
+		if fn == nil {
+			continue
+		}
+		n++
+		bad := ""
+		EachInstr(fn, func(in ssa.Instruction) {
+			st, ok := in.(*ssa.Store)
+			if !ok {
+				return
+			}
+			fa, ok := st.Addr.(*ssa.FieldAddr)
+			if !ok {
+				return
+			}
+			if _, f, ok := FieldOf(fa); ok && f == "protocolType" {
+				bad = w.InstrPos(st)
+			}
+		})
+		c.CheckAt("C32.R5", name+": keeps the protocol chosen by the handler", w.Pos(fn.Pos()), bad == "",
+			"the handler frames the stream for the protocol it derived from the request; a constructor that re-derives it (differently) makes encoding and framing disagree — protobuf replies written as newline-delimited records (store at "+bad+")")
+	}
+	c.Anchor("C32.R5", "stream transport constructors", n >= 1)
+}
+
+// runRefreshCyclesHonourNeedsBroadcast (C25.R8): a key flagged needsBroadcast has a subscriber that holds
+// nothing; the next backend poll must ask for the full item (version 0), whichever of the two refresh
+// cycles gets there first. Every function of the shared-poll channel state that fills SharedPollItem.Version
+// from a tracked entry also reads that entry's needsBroadcast.
+func runRefreshCyclesHonourNeedsBroadcast(c *Ctx) {
+	w := c.W
+	n := 0
+	for _, f := range moduleFuncs(w) {
+		fills := false
+		for _, st := range storesToField(f, false, "SharedPollItem", "Version") {
+			var loads []*ssa.UnOp
+			fieldLoadsIn(st.Val, 0, map[ssa.Value]bool{}, &loads)
+			for _, ld := range loads {
+				if fa, ok := ld.X.(*ssa.FieldAddr); ok && fieldAddrIs(fa, "sharedPollTrackedEntry", "version") {
+					fills = true
+				}
+			}
+		}
+		if !fills {
+			continue
+		}
+		n++
+		reads := false
+		for _, acc := range FieldAccesses(f, "sharedPollTrackedEntry", "needsBroadcast") {
+			if !acc.Write {
+				reads = true
+			}
+		}
+		c.CheckAt("C25.R8", FuncName(f)+": the version asked from the backend depends on needsBroadcast", w.Pos(f.Pos()), reads,
+			"a late joiner of an already tracked key is served by a re-fetch; a cycle that always sends the entry's version gets 'nothing newer' from a backend that skips unchanged items, and the joiner never receives the current value")
+	}
+	c.Anchor("C25.R8", "refresh cycles filling SharedPollItem.Version from tracked entries", n >= 2)
+}
+
+func init() {
+	r4doc("C27", "C27.R8", "K2: an option that is present is forwarded to the other nodes whatever its value")
+	round3Hooks["C27"] = append(round3Hooks["C27"], runOptionForwardedWhenPresent)
+}
+
+// runOptionForwardedWhenPresent (C27.R8): the calling node applies the caller's options as they are; the
+// other nodes get what pubSubscribe / pubRefresh / pubUnsubscribe / pubDisconnect put into the control
+// message. A field that is copied under a condition may only depend on the option being present (a nil
+// test): a test of its value (a zero offset treated as "no position") makes the remote nodes act on
+// different options than the calling node.
+func runOptionForwardedWhenPresent(c *Ctx) {
+	w := c.W
+	n := 0
+	for _, name := range []string{"(*Node).pubSubscribe", "(*Node).pubRefresh", "(*Node).pubUnsubscribe", "(*Node).pubDisconnect"} {
+		fn := w.Func("centrifuge", name)
+		if fn == nil {
+			continue
+		}
+		EachInstr(fn, func(in ssa.Instruction) {
+			st, ok := in.(*ssa.Store)
+			if !ok {
+				return
+			}
+			fa, ok := st.Addr.(*ssa.FieldAddr)
+			if !ok || !strings.Contains(fa.X.Type().String(), "controlpb.") {
+				return
+			}
+			gs := Guards(st)
+			if len(gs) == 0 {
+				return
+			}
+			n++
+			bad := ""
+			for _, g := range gs {
+				b, ok := g.Cond.(*ssa.BinOp)
+				if ok && (isNilConst(b.X) || isNilConst(b.Y)) {
+					continue
+				}
+				bad = g.String()
+			}
+			c.Check("C27.R8", st, "a conditionally forwarded option depends only on its presence", bad == "",
+				"the option is dropped from the control message for some of its values ("+bad+"): connections on other nodes are handled with different options than a connection on the calling node")
+		})
+	}
+	c.Anchor("C27.R8", "conditionally forwarded control message fields", n >= 1)
+}
